@@ -331,6 +331,10 @@ func registerSyncStubs(p *Program) {
 	// state: 0 unlocked, -1 write-locked, n>0 read-locked n times
 	p.stub("(*sync.Mutex).Lock", func(ex *Exec, a []Value) Value {
 		o := lockObj(ex, a[0])
+		if ex.curThread != nil && ex.params()["LOCKSCHED"] == 1 {
+			ex.tLock(o, lmLock)
+			return nil
+		}
 		if ex.mutexState[o] != 0 {
 			ex.internal("sync.Mutex.Lock would block forever (self-deadlock) in sequential executor")
 		}
@@ -339,6 +343,9 @@ func registerSyncStubs(p *Program) {
 	})
 	p.stub("(*sync.Mutex).Unlock", func(ex *Exec, a []Value) Value {
 		o := lockObj(ex, a[0])
+		if ex.fpOn {
+			ex.fpW[o.ID] = true // releasing changes what other threads may do next (interleaving reduction)
+		}
 		if ex.mutexState[o] != -1 {
 			panic(&goPanic{Val: IfaceVal{T: types.Typ[types.String], V: MkStr("sync: unlock of unlocked mutex")}, Msg: "fatal error: sync: unlock of unlocked mutex"})
 		}
@@ -347,6 +354,9 @@ func registerSyncStubs(p *Program) {
 	})
 	p.stub("(*sync.Mutex).TryLock", func(ex *Exec, a []Value) Value {
 		o := lockObj(ex, a[0])
+		if ex.curThread != nil && ex.params()["LOCKSCHED"] == 1 {
+			return Bool(ex.tLock(o, lmTryLock))
+		}
 		if ex.mutexState[o] != 0 {
 			return False
 		}
@@ -355,6 +365,10 @@ func registerSyncStubs(p *Program) {
 	})
 	p.stub("(*sync.RWMutex).Lock", func(ex *Exec, a []Value) Value {
 		o := lockObj(ex, a[0])
+		if ex.curThread != nil && ex.params()["LOCKSCHED"] == 1 {
+			ex.tLock(o, lmLock)
+			return nil
+		}
 		if ex.mutexState[o] != 0 {
 			ex.internal("sync.RWMutex.Lock would block forever (self-deadlock) in sequential executor")
 		}
@@ -363,6 +377,9 @@ func registerSyncStubs(p *Program) {
 	})
 	p.stub("(*sync.RWMutex).Unlock", func(ex *Exec, a []Value) Value {
 		o := lockObj(ex, a[0])
+		if ex.fpOn {
+			ex.fpW[o.ID] = true // releasing changes what other threads may do next (interleaving reduction)
+		}
 		if ex.mutexState[o] != -1 {
 			panic(&goPanic{Val: IfaceVal{T: types.Typ[types.String], V: MkStr("sync: Unlock of unlocked RWMutex")}, Msg: "fatal error: sync: Unlock of unlocked RWMutex"})
 		}
@@ -371,6 +388,10 @@ func registerSyncStubs(p *Program) {
 	})
 	p.stub("(*sync.RWMutex).RLock", func(ex *Exec, a []Value) Value {
 		o := lockObj(ex, a[0])
+		if ex.curThread != nil && ex.params()["LOCKSCHED"] == 1 {
+			ex.tLock(o, lmRLock)
+			return nil
+		}
 		if ex.mutexState[o] < 0 {
 			ex.internal("sync.RWMutex.RLock would block forever (self-deadlock) in sequential executor")
 		}
@@ -379,6 +400,9 @@ func registerSyncStubs(p *Program) {
 	})
 	p.stub("(*sync.RWMutex).RUnlock", func(ex *Exec, a []Value) Value {
 		o := lockObj(ex, a[0])
+		if ex.fpOn {
+			ex.fpW[o.ID] = true // releasing changes what other threads may do next (interleaving reduction)
+		}
 		if ex.mutexState[o] <= 0 {
 			panic(&goPanic{Val: IfaceVal{T: types.Typ[types.String], V: MkStr("sync: RUnlock of unlocked RWMutex")}, Msg: "fatal error: sync: RUnlock of unlocked RWMutex"})
 		}
@@ -387,6 +411,9 @@ func registerSyncStubs(p *Program) {
 	})
 	p.stub("(*sync.RWMutex).TryLock", func(ex *Exec, a []Value) Value {
 		o := lockObj(ex, a[0])
+		if ex.curThread != nil && ex.params()["LOCKSCHED"] == 1 {
+			return Bool(ex.tLock(o, lmTryLock))
+		}
 		if ex.mutexState[o] != 0 {
 			return False
 		}
@@ -395,6 +422,9 @@ func registerSyncStubs(p *Program) {
 	})
 	p.stub("(*sync.RWMutex).TryRLock", func(ex *Exec, a []Value) Value {
 		o := lockObj(ex, a[0])
+		if ex.curThread != nil && ex.params()["LOCKSCHED"] == 1 {
+			return Bool(ex.tLock(o, lmTryRLock))
+		}
 		if ex.mutexState[o] < 0 {
 			return False
 		}
